@@ -99,7 +99,7 @@ pub fn builtin_map_with_key(
 
 #[builtin]
 pub fn builtin_flatmap(
-	func: NativeFn!((Either![String, Val]) -> Val),
+	func: NativeFn!((Thunk<Val>) -> Val),
 	arr: IndexableVal,
 ) -> Result<IndexableVal> {
 	use std::fmt::Write;
@@ -107,7 +107,7 @@ pub fn builtin_flatmap(
 		IndexableVal::Str(str) => {
 			let mut out = String::new();
 			for c in str.chars() {
-				match func.call(Either2::A(c.to_string()))? {
+				match func.call(Thunk::evaluated(Val::string(c)))? {
 					Val::Str(o) => write!(out, "{o}").unwrap(),
 					Val::Null => {}
 					_ => bail!("in std.join all items should be strings"),
@@ -116,20 +116,17 @@ pub fn builtin_flatmap(
 			Ok(IndexableVal::Str(out.into()))
 		}
 		IndexableVal::Arr(a) => {
+			// `flattenArrays(makeArray(length(arr), function(i) func(arr[i])))`: every call is
+			// evaluated, but neither its argument nor the elements of its result are.
 			let mut out = Vec::new();
-			for el in a.iter() {
-				let el = el?;
-				match func.call(Either2::B(el))? {
-					Val::Arr(o) => {
-						for oe in o.iter() {
-							out.push(oe?);
-						}
-					}
+			for el in a.iter_lazy() {
+				match func.call(el)? {
+					Val::Arr(o) => out.extend(o.iter_lazy()),
 					Val::Null => {}
 					_ => bail!("in std.join all items should be arrays"),
 				}
 			}
-			Ok(IndexableVal::Arr(out.into()))
+			Ok(IndexableVal::Arr(ArrValue::lazy(out)))
 		}
 	}
 }
